@@ -303,12 +303,20 @@ def gen_world(wseed):
     if pumls:
         src = pumls[sorted(pumls)[0]]
         form = rng.random()
-        if form < 0.4:
+        if form < 0.25:
             text = src["text"].replace("@startuml", "")
-        elif form < 0.8:
+        elif form < 0.5:
             text = src["text"].replace("@enduml", "")
-        else:
+        elif form < 0.65:
             text = src["text"].replace("@startuml", "").replace("@enduml", "")
+        elif form < 0.75:
+            text = src["text"].replace("@startuml", "startuml")  # the word without its '@' is no tag
+        elif form < 0.85:
+            text = src["text"].replace("@enduml", "enduml")
+        elif form < 0.93:
+            text = ""  # an empty file has no tags either
+        else:
+            text = " \n\n"
         pumls["pbad"] = {"text": text, "base": src["base"], "tags": False,
                          "components": src["components"], "cfg": src["cfg"]}
     return {"tree": tree, "cfgs": cfgs, "predicted": predicted, "archs": archs, "pumls": pumls,
